@@ -286,6 +286,8 @@ def body(led):
     led.trust('cmverif symbolic executor with abstract arrays (absnp); z3 (LIA) for shape obligations')
     check_lb(led)
     check_panel_lb(led)
+    from . import c05_shell
+    c05_shell.check(led)
     lemma_backtransform(led)
     _standin(led)
 
